@@ -93,6 +93,10 @@ def run(ctx):
                     yield ("opaque", {"t": t, "b": rng.randbytes(w).hex()})
                 yield ("opaque", {"t": t, "b": bytes(w).hex()})
                 yield ("opaque", {"t": t, "b": (b"\xff" * w).hex()})
+            if t != "CH" and t[0] in "XA":
+                w = int(t[1:4])
+                for n in sorted({0, 1, w - 1, w + 1, w + 2, 2 * w, w + 255} - {w, -1}):
+                    yield ("wide", {"t": t, "b": rng.randbytes(n).hex()})
         # text: ASCII strings of every shape through the variable-length text type
         for txt in ("", "A", "hello world", "C:\\temp\\x64\\out", "[\\x20-\\x7e]+", "\\x41\\x42", "100% {ok} 'q' \"d\"", "\\\\", "\\n\\t\\r", "\\u0041\\N{DASH}",
                     "b'\\x00'", "%s %d {0}", "tab\there", " lead and trail ", "~" * 300):
@@ -144,6 +148,10 @@ def run(ctx):
                 for j in (0, 1, 12):
                     name = base + "_%02d" % i + ("_%02d" % j if j else "")
                     yield ("att", {"base": base, "i": i, "j": j, "name": name})
+            # deeper nesting (one index per level, no depth limit in the naming scheme)
+            for more in ((3,), (1, 1), (10, 2, 100)):
+                name = base + "_%02d_%02d" % (2, 5) + "".join("_%02d" % x for x in more)
+                yield ("att", {"base": base, "i": 2, "j": 5, "more": list(more), "name": name})
         for N in itertools.chain(range(-300, 301), (rng.randrange(-(1 << 30), 1 << 30) for _ in range(20000 if big else 3000))):
             yield ("sphp", {"N": N})
         # values with more decimals than the high-precision unit (tenths of a unit; residuals that round up to a whole unit: the carry zone)
@@ -200,6 +208,14 @@ def run(ctx):
     run_batch(ctx, MODULE, CFG, gen_int(), codec.OBSERVERS, sigfn, negfn, chunk=60000)
     run_batch(ctx, MODULE, CFG, gen_misc(), codec.OBSERVERS, sigfn, negfn, chunk=60000)
     run_batch(ctx, MODULE, CFG, gen_ext(), codec.OBSERVERS, sigfn, negfn, chunk=60000, neg_every=37)
+    # the same laws in interpreters started with -O / -OO (assert statements and `if __debug__:` blocks compiled out): a sample of every kind
+    from . import run_opt
+
+    rng2 = __import__("random").Random(ctx.seed if hasattr(ctx, "seed") else 0)
+    for key in ("int", "wide", "opaque", "nom", "dec", "text", "att"):
+        pool = [i for o, i in itertools.chain(gen_int(), gen_misc()) if o == key]
+        rng2.shuffle(pool)
+        run_opt(ctx, MODULE, CFG, "codec:" + key, pool[: (4000 if big else 600)], sigfn)
     # protocol(): all 65,536 two-byte prefixes (exhaustive)
     events = []
     common_setup()
